@@ -208,7 +208,7 @@ class C10(object):
     def gen(self, rng, tier):
         # quick: 12 cycles of the 7 representations; cycle b calls registry entries 12b .. 12b+11, so that every
         # callable of the quick registry meets every representation at least once per run
-        n_cases = 84 if tier == 'quick' else 500
+        n_cases = 84 if tier == 'quick' else 240
         for i in range(n_cases):
             c = gen.rand_dist_case(rng, nmin=3, nmax=3, amax=2, bases=['linear'], allow_space=False, allow_names=False,
                                    max_support=7, klasses=('str', 'tuple'))
